@@ -44,7 +44,9 @@ RULE = ('C01-grammar scripts (1-3 equations, lags/leads <= 3, parameters, errors
         'tuple / range / NumPy-array / pandas-Index spans with integer labels (model side: SolveAllSpan.locate_span). Lags / leads up '
         'to 11 / 10. Linkers: BaseLinker.solve_t over two instances of the class at every t in both spellings, every selection of submodels '
         '(oracle: rejections change nothing, frame per submodel, reads in span; K: Linker.linker_solve_t_M with the generated pass). '
-        'Histories: 3-6 steps over up to three instances of one class created at different moments — solve_t calls with '
+        'Pre-solve setup histories through the public API: one variable\'s whole series assigned to another (model.X = model.Y, '
+        'model[\'X\'] = model.Y), one external ndarray assigned to two variables, optionally copy() / reindex() afterwards, then the '
+        'usual calls (the model sees values only: shared storage shows as a cell no equation assigns). Histories: 3-6 steps over up to three instances of one class created at different moments — solve_t calls with '
         'independent options (offsets in / just outside the span, both spellings of t), rejected calls, in-place edits of the '
         'instance lists endogenous / check — each call judged and compared on its own, the other instances and the class lists '
         'checked after every step. Syntax variants of the documented grammar: X[+1], X[ -1 ], { a }, < e >, keyword-prefixed names (is_open, Pin, not_X), '
@@ -257,6 +259,38 @@ def base_case(p, n, data, entry, t=0, **opts):
             'inst_lags': None, 'inst_leads': None}
 
 
+def with_setup(rng, c, p, n):
+    """a pre-solve setup history: one variable's whole series assigned to another (attribute / key form), or one external
+    ndarray assigned to two variables; sometimes the object is then copied or reindexed onto its own span"""
+    c = copy.deepcopy(c)
+    names = all_names(p.eqs)
+    lhs = [e['lhs'][0] for e in p.eqs]
+    others = [nm for nm in names if nm not in lhs]
+    if not others:
+        return None
+    y, x = rng.choice(lhs), rng.choice(others)
+    u = rng.random()
+    if u < 0.3:
+        ops = [{'op': rng.choice(['attr', 'key']), 'dst': x, 'src': y}]            # model.YD_e = model.YD
+    elif u < 0.55:
+        ops = [{'op': rng.choice(['attr', 'key']), 'dst': y, 'src': x}]
+    elif u < 0.85:
+        vals = [lib.fhex(rng.choice(NICE)) for _ in range(n)]
+        dsts = [y, x] if rng.random() < 0.5 else [x, y]
+        if len(others) > 1 and rng.random() < 0.3:
+            dsts.append(rng.choice([nm for nm in others if nm != x]))
+        ops = [{'op': 'ext', 'dsts': dsts, 'vals': vals}]
+    else:
+        ops = [{'op': 'attr', 'dst': x, 'src': y}, {'op': 'key', 'dst': rng.choice(lhs), 'src': x}]
+    v = rng.random()
+    if v < 0.15:
+        ops.append({'op': 'copy'})
+    elif v < 0.3:
+        ops.append({'op': 'reindex'})
+    c['setup'] = ops
+    return c
+
+
 def with_instance_override(rng, c, L, Ld, n):
     """model.lags / model.leads assigned by the user after construction: RAISED (guard and default range must follow the
     instance attribute) or LOWERED below what the equations need (the user's own redefinition: judged by K only)"""
@@ -336,6 +370,10 @@ def cases_for_program(rng, p, tier, heavy=True):
                 cases.append(c2)
             elif u < 0.9:
                 c2 = with_instance_override(rng, c, L, Ld, n)
+                if c2 is not None:
+                    cases.append(c2)
+            elif u < 0.97:
+                c2 = with_setup(rng, c, p, n)
                 if c2 is not None:
                     cases.append(c2)
         # (b') a history: several calls on ONE instance, rejected ones in between (state must not leak between calls)
@@ -429,6 +467,8 @@ def cases_for_program(rng, p, tier, heavy=True):
                 c['opts']['min_iter'] = c['opts']['max_iter'] + 1
             if heavy and rng.random() < 0.12:
                 c = with_instance_override(rng, c, L, Ld, n) or c
+            elif heavy and rng.random() < 0.12:
+                c = with_setup(rng, c, p, n) or c
             cases.append(c)
         # (d) the Fortran engine (frame / rejection / feasibility clauses; conditionals are not Fortran)
         if heavy and n in (lens[0], lens[2]) and ' if ' not in '\n'.join(p.lines):
@@ -457,6 +497,10 @@ def cases_for_program(rng, p, tier, heavy=True):
                     cases.append(c2)
                 elif u < 0.6:
                     c2 = with_instance_override(rng, c, L, Ld, n)
+                    if c2 is not None:
+                        cases.append(c2)
+                elif u < 0.68:
+                    c2 = with_setup(rng, c, p, n)
                     if c2 is not None:
                         cases.append(c2)
             fkind = rng.choice([None, None, 'range', 'array', 'index', 'tuple'])
@@ -552,6 +596,18 @@ def fixed_cases():
     for t in (2, -2, 3, -1, 1):
         out.append(base_case(r, 4, d4, 'solve_t', t, max_iter=2))
     out.append(base_case(r, 4, d4, 'solve', 0))
+    # pre-solve setup histories: `model.X = model.Y` (attribute and key form), one external array for two variables, then solve
+    for ops in ([{'op': 'attr', 'dst': 'X', 'src': 'Y'}], [{'op': 'key', 'dst': 'X', 'src': 'Y'}], [{'op': 'attr', 'dst': 'Y', 'src': 'X'}],
+                [{'op': 'ext', 'dsts': ['Y', 'X'], 'vals': [lib.fhex(v) for v in (2.0, 3.0, 5.0, 7.0)]}],
+                [{'op': 'ext', 'dsts': ['X', 'Y'], 'vals': [lib.fhex(v) for v in (2.0, 3.0, 5.0, 7.0)]}, {'op': 'copy'}],
+                [{'op': 'attr', 'dst': 'X', 'src': 'Y'}, {'op': 'reindex'}]):
+        for t in (2, -1):
+            c = base_case(p, 4, data, 'solve_t', t, max_iter=3)
+            c['setup'] = ops
+            out.append(c)
+        c = base_case(p, 4, data, 'solve', 0)
+        c['setup'] = ops
+        out.append(c)
     # histories over sibling instances: an in-place edit of one instance's lists must stay private to it, whether the sibling is
     # created before or after the edit; offsets in and just outside the span, both spellings of t
     dX = {'Y': data['Y'], 'X': [lib.fhex(x) for x in (1.0, 2.0, 3.0, 4.0)]}
@@ -599,7 +655,7 @@ def fixed_cases():
 
 def gen(rng, tier):
     cases = fixed_cases()
-    nprog = 26 if tier == 'quick' else 120
+    nprog = 24 if tier == 'quick' else 110
     for _ in range(nprog):
         cases += cases_for_program(rng, gen_prog(rng), tier)
     if tier == 'thorough':
@@ -643,6 +699,7 @@ def impl_fortran(case):
     for nm in names:
         if nm in case['data']:
             m.__dict__['_' + nm][:] = [lib.unhex(x) for x in case['data'][nm]]
+    m = apply_setup(m, case)
     m.__dict__['_status'][:] = case['status0']
     m.__dict__['_iterations'][:] = case['iters0']
     if case.get('inst_lags') is not None:
@@ -707,6 +764,31 @@ def make_span(case):
     return pd.Index(labels)
 
 
+def apply_setup(m, case):
+    """pre-solve history on the REAL object, through the public API only: whole-series assignments of one variable's array to
+    another variable (attribute and key form) and of one external ndarray to several variables, optionally followed by
+    copy() / reindex() onto the same span.  The model side only ever sees the resulting VALUES (copies): a storage shared
+    between variables would show up as a cell changing that no equation assigns.  Returns the object to go on with."""
+    import numpy as np
+    for op in case.get('setup') or []:
+        if op['op'] == 'attr':
+            setattr(m, op['dst'], getattr(m, op['src']))
+        elif op['op'] == 'key':
+            m[op['dst']] = m[op['src']]
+        elif op['op'] == 'ext':
+            ext = np.array([lib.unhex(x) for x in op['vals']], dtype=float)
+            for j, dst in enumerate(op['dsts']):
+                if j % 2 == 0:
+                    setattr(m, dst, ext)
+                else:
+                    m[dst] = ext
+        elif op['op'] == 'copy':
+            m = m.copy()
+        elif op['op'] == 'reindex':
+            m = m.reindex(list(m.span))
+    return m
+
+
 def impl(case):
     import warnings
     import numpy as np
@@ -734,6 +816,7 @@ def impl(case):
         for nm in names:
             if nm in data:
                 mi.__dict__['_' + nm][:] = [lib.unhex(x) for x in data[nm]]
+        mi = apply_setup(mi, case)
         mi.__dict__['_status'][:] = case['status0']
         mi.__dict__['_iterations'][:] = case['iters0']
         if case.get('inst_lags') is not None:
@@ -1628,6 +1711,8 @@ def bucket(case, obs):
         extra += '/inst-lowered' if (obs['lags'] < obs['class_lags'] or obs['leads'] < obs['class_leads']) else '/inst-raised'
     if obs.get('untranslatable'):
         extra += '/oracle-only'
+    if case.get('setup'):
+        extra += '/setup'
     return '%s%s%s/%s' % ('fortran:' if obs.get('engine') == 'fortran' else '', case['entry'], extra, r)
 
 
